@@ -266,25 +266,25 @@ Definition set_property (w : world) (recv : value) (n : string) (v : value) : re
   end.
 
 (* call_closure: `arity - 1 == arg_count` (the frame-limit check is outside this model) *)
-Definition call_closure (w : world) (f : nat) (slot0 : value) (argc : nat) : res target :=
-  match nth_error (w_arity w) f with
+Definition call_closure (ar : list nat) (f : nat) (slot0 : value) (argc : nat) : res target :=
+  match nth_error ar f with
   | Some ar => if Nat.eqb argc (ar - 1) then Ok (TClosure f slot0)
                else Err TypeError (expected_args (ar - 1) argc)
   | None => Stuck "dangling closure"
   end.
 
 (* call_value: the callee sits in the slot below the arguments; bound methods poke their receiver there *)
-Definition call_value (w : world) (callee : value) (argc : nat) : res target :=
+Definition call_value (ar : list nat) (callee : value) (argc : nat) : res target :=
   match callee with
-  | VBound r f => call_closure w f r argc
+  | VBound r f => call_closure ar f r argc
   | VBoundNative r k => Ok (TNative k r)
-  | VClosure f => call_closure w f (VClosure f) argc
+  | VClosure f => call_closure ar f (VClosure f) argc
   | _ => Err TypeError "Can only call functions and methods."
   end.
 
 Definition invoke_from_class (w : world) (c : cref) (slot0 : value) (n : string) (argc : nat) : res target :=
   match tbl_get n (table_of (w_cs w) c) with
-  | Some (MClosure f) => call_closure w f slot0 argc
+  | Some (MClosure f) => call_closure (w_arity w) f slot0 argc
   | Some (MNative k) => Ok (TNative k slot0)
   | None => Err AttributeError (undefined_property n)
   end.
@@ -296,7 +296,7 @@ Definition invoke (w : world) (recv : value) (n : string) (argc : nat) : res tar
     match nth_error (w_heap w) a with
     | Some i =>
       match fld_get n (fields i) with
-      | Some v => call_value w v argc
+      | Some v => call_value (w_arity w) v argc
       | None => invoke_from_class w (CUser (iclass i)) recv n argc
       end
     | None => Stuck "dangling instance"
